@@ -39,6 +39,39 @@ const (
 	styleNative
 )
 
+// how a native function is reached at a call or defer site (the abstract program is the same:
+// all forms are the same call in Go)
+const (
+	reachDirect      = iota // h.F(x)
+	reachVar                // g := h.F; g(x)
+	reachArg                // func(g func(int)) { g(x) }(h.F): passed as an argument and called there
+	reachRet                // func() func(int) { return h.F }()(x): returned by a function
+	reachMethod             // var t h.T; t.F(x)
+	reachMethodValue        // var t h.T; g := t.F; g(x)
+	reachMethodExpr         // var t h.T; h.T.F(t, x)
+	reachIface              // var t h.T; var i h.I = t; i.F(x)   (h.I: a native interface type)
+	reachField              // s := struct{ f func(int) }{h.F}; s.f(x)
+	reachSlice              // fs := []func(int){h.F}; fs[0](x)
+	reachIfaceValue         // var i h.I = t; g := i.F; g(x)
+	reachIfaceExpr          // var i h.I = t; h.I.F(i, x)
+	nReach
+)
+
+var reachNames = [nReach]string{"direct", "var", "arg", "ret", "method", "methodvalue", "methodexpr", "iface", "field", "slice", "ifacevalue", "ifaceexpr"}
+
+const reachDigits = "0123456789ab"
+
+// what a panic value is in the Go source (in the abstract program every value is a number)
+const (
+	kindInt    = iota // 5
+	kindString        // "s5"
+	kindError         // h.Err(5): errors.New("e5")
+	kindCustom        // h.Cus{N: 5}: a struct type with an Error method, "c5"
+	nKind
+)
+
+var kindNames = [nKind]string{"int", "string", "error", "custom"}
+
 // panic values from errBase on stand for run-time errors raised by the interpreted code itself
 const errBase = 900000
 
@@ -58,16 +91,35 @@ func valCode(text string) string {
 	if _, err := strconv.Atoi(text); err == nil {
 		return text
 	}
+	if len(text) > 1 && strings.IndexByte("sec", text[0]) >= 0 && isDigits(text[1:]) {
+		return text[1:]
+	}
 	return "?" + strings.NewReplacer(" ", "_", ",", ";").Replace(text)
 }
 
-func valText(code string) string {
-	if n, err := strconv.Atoi(code); err == nil {
-		if t, ok := errTexts[n]; ok {
-			return t
+func isDigits(s string) bool {
+	for _, ch := range s {
+		if ch < '0' || ch > '9' {
+			return false
 		}
 	}
-	return code
+	return s != ""
+}
+
+// kindTagOf says which kind of value a printed text must come from: "i", "s", "e", "c" ("" = none).
+func kindTagOf(text string) string {
+	for _, t := range errTexts {
+		if t == text {
+			return "e"
+		}
+	}
+	switch {
+	case isDigits(text):
+		return "i"
+	case len(text) > 1 && isDigits(text[1:]) && strings.IndexByte("sec", text[0]) >= 0:
+		return text[:1]
+	}
+	return ""
 }
 
 // nativeShape reports whether function i can be written as a native function.
@@ -110,7 +162,8 @@ func (p *prog) maxPanics(i int) int {
 	return n
 }
 
-// setStyles chooses how every function is written.
+// setStyles chooses how every function is written, how every native function is reached and
+// what kind of value every panic site raises.
 func (p *prog) setStyles(r *proto.Rand) {
 	for i := 1; i < len(p.Funcs); i++ {
 		p.Style[i] = r.Intn(3)
@@ -118,9 +171,144 @@ func (p *prog) setStyles(r *proto.Rand) {
 			p.Style[i] = styleNative
 		}
 	}
+	p.Reach = make([]int, len(p.Funcs))
+	for i := range p.Reach {
+		if r.Intn(2) == 0 {
+			p.Reach[i] = r.Intn(nReach)
+			if p.envNative(i) && (p.Reach[i] == reachField || p.Reach[i] == reachSlice) {
+				// known finding env-native-in-composite: not generated
+				p.Reach[i] = reachVar
+			}
+		}
+	}
+	p.ReachV = make([]int, len(p.Native))
+	p.Kind = make([]int, len(p.Native))
+	for v := range p.ReachV {
+		p.ReachV[v] = -1
+		if r.Intn(2) == 0 {
+			p.ReachV[v] = r.Intn(nReach)
+		}
+		if r.Intn(3) == 0 {
+			p.Kind[v] = r.Intn(nKind)
+		}
+	}
 }
 
-// styleSuffix encodes the way the program is written, for replays: "# <style digits> <native panic values>".
+// envNative reports whether the native function written for function j takes a native.Env
+// (h.Print, h.Stop, h.Fatal).
+func (p *prog) envNative(j int) bool {
+	if len(p.Funcs[j]) != 1 {
+		return false
+	}
+	switch p.Funcs[j][0].Op {
+	case opPrint, opStop, opFatal:
+		return true
+	}
+	return false
+}
+
+// reachOf: how the native function written for function j is reached.
+func (p *prog) reachOf(j int) int {
+	if j < len(p.Reach) && p.Reach[j] >= 0 && p.Reach[j] < nReach {
+		return p.Reach[j]
+	}
+	return reachDirect
+}
+
+// reachOfVal: how the native function that raises panic value v is reached. Values without a
+// choice keep the form of the first version of this harness: h.Panic(v) for even values, a
+// method call on a variable of type h.T for odd ones.
+func (p *prog) reachOfVal(v int) int {
+	if v < len(p.ReachV) && p.ReachV[v] >= 0 && p.ReachV[v] < nReach {
+		return p.ReachV[v]
+	}
+	if v%2 == 0 {
+		return reachDirect
+	}
+	return reachMethod
+}
+
+func (p *prog) kindOf(v int) int {
+	if v >= 0 && v < len(p.Kind) && p.Kind[v] > 0 && p.Kind[v] < nKind {
+		return p.Kind[v]
+	}
+	return kindInt
+}
+
+// valueText is the text a panic value is printed as.
+func (p *prog) valueText(v int) string {
+	if t, ok := errTexts[v]; ok {
+		return t
+	}
+	return [nKind]string{"", "s", "e", "c"}[p.kindOf(v)] + strconv.Itoa(v)
+}
+
+// valueExpr is the Go expression of a panic value raised by interpreted code.
+func (p *prog) valueExpr(v int) string {
+	switch p.kindOf(v) {
+	case kindString:
+		return fmt.Sprintf("\"s%d\"", v)
+	case kindError:
+		return fmt.Sprintf("h.Err(%d)", v)
+	case kindCustom:
+		return fmt.Sprintf("h.Cus{N: %d}", v)
+	}
+	return strconv.Itoa(v)
+}
+
+// panicNative is the name of the native function (and method of h.T) that panics with value v.
+func (p *prog) panicNative(v int) string {
+	return "Panic" + [nKind]string{"", "S", "E", "C"}[p.kindOf(v)]
+}
+
+// nativeHist lists, for the histogram of the run, how the native functions of the program are
+// reached and what kinds of values its panic sites raise.
+func (p *prog) nativeHist() []string {
+	seen := map[string]bool{}
+	var out []string
+	add := func(s string) {
+		if !seen[s] {
+			seen[s] = true
+			out = append(out, s)
+		}
+	}
+	refd := map[int]bool{}
+	for _, f := range p.Funcs {
+		for _, in := range f {
+			switch in.Op {
+			case opCall, opDefer:
+				refd[in.Arg] = true
+			case opPanic:
+				if in.Arg < errBase {
+					add("panic-kind-" + kindNames[p.kindOf(in.Arg)])
+					if in.Arg < len(p.Native) && p.Native[in.Arg] {
+						add("native-reach-" + reachNames[p.reachOfVal(in.Arg)])
+					}
+				}
+			}
+		}
+	}
+	for j := range p.Funcs {
+		if refd[j] && p.Style[j] == styleNative {
+			add("native-reach-" + reachNames[p.reachOf(j)])
+		}
+	}
+	return out
+}
+
+func (p *prog) usesCustom() bool {
+	for _, f := range p.Funcs {
+		for _, in := range f {
+			if in.Op == opPanic && in.Arg < errBase && p.kindOf(in.Arg) == kindCustom {
+				return true
+			}
+		}
+	}
+	return false
+}
+
+// styleSuffix encodes the way the program is written, for replays:
+// "# <style digits> <native panic values> [force] [R<reach digit per function>] [V<v>:<reach>,…] [K<v>:<kind>,…]".
 func (p *prog) styleSuffix() string {
 	var b strings.Builder
 	b.WriteString(" # ")
@@ -144,15 +332,47 @@ func (p *prog) styleSuffix() string {
 	if p.forceNative {
 		b.WriteString(" force")
 	}
+	anyReach := false
+	for j := range p.Funcs {
+		anyReach = anyReach || p.reachOf(j) != reachDirect
+	}
+	if anyReach {
+		b.WriteString(" R")
+		for j := range p.Funcs {
+			b.WriteByte(reachDigits[p.reachOf(j)])
+		}
+	}
+	pairs := func(tag string, vals []int, skip int) {
+		var w []string
+		for v, x := range vals {
+			if x != skip && x >= 0 {
+				w = append(w, fmt.Sprintf("%d:%d", v, x))
+			}
+		}
+		if len(w) > 0 {
+			b.WriteString(" " + tag + strings.Join(w, ","))
+		}
+	}
+	pairs("V", p.ReachV, -1)
+	pairs("K", p.Kind, kindInt)
 	return b.String()
 }
 
 type prog struct {
 	Funcs  [][]instr
 	Style  []int  // per function
-	Native []bool // per panic site (indexed by the panic value): written as h.Panic(v) / t.Panic(v)
+	Native []bool // per panic site (indexed by the panic value): raised by a native function or method
+	Reach  []int  // per function written as a native function: how the native function is reached
+	ReachV []int  // per panic value raised by a native function: how it is reached (-1: see reachOfVal)
+	Kind   []int  // per panic value: int, string, error, custom error type
 
 	forceNative bool // replay of a recorded finding: native style also for callbacks that panic more than once
+}
+
+// withStyleOf returns the program q written the way p is.
+func (q *prog) withStyleOf(p *prog) *prog {
+	q.Style, q.Native, q.Reach, q.ReachV, q.Kind, q.forceNative = p.Style, p.Native, p.Reach, p.ReachV, p.Kind, p.forceNative
+	return q
 }
 
 func hasArg(op string) bool {
@@ -189,12 +409,47 @@ func parseAbstract(s string) (*prog, error) {
 		return p, err
 	}
 	f := strings.Fields(suffix)
-	if len(f) == 3 && f[2] == "force" {
-		p.forceNative = true
-		f = f[:2]
-	}
-	if len(f) != 2 || len(f[0]) != len(p.Funcs) {
+	if len(f) < 2 || len(f[0]) != len(p.Funcs) {
 		return nil, fmt.Errorf("bad style suffix")
+	}
+	pairs := func(w string) ([]int, error) {
+		var out []int
+		for _, kv := range strings.Split(w, ",") {
+			a, b, ok := strings.Cut(kv, ":")
+			v, err1 := strconv.Atoi(a)
+			x, err2 := strconv.Atoi(b)
+			if !ok || err1 != nil || err2 != nil || v < 0 || v > 1<<20 || x < 0 {
+				return nil, fmt.Errorf("bad pair list")
+			}
+			for len(out) <= v {
+				out = append(out, -1)
+			}
+			out[v] = x
+		}
+		return out, nil
+	}
+	for _, w := range f[2:] {
+		var err error
+		switch {
+		case w == "force":
+			p.forceNative = true
+		case strings.HasPrefix(w, "R") && len(w) == 1+len(p.Funcs):
+			p.Reach = make([]int, len(p.Funcs))
+			for i, ch := range w[1:] {
+				if p.Reach[i] = strings.IndexRune(reachDigits, ch); p.Reach[i] < 0 {
+					err = fmt.Errorf("bad reach")
+				}
+			}
+		case strings.HasPrefix(w, "V"):
+			p.ReachV, err = pairs(w[1:])
+		case strings.HasPrefix(w, "K"):
+			p.Kind, err = pairs(w[1:])
+		default:
+			err = fmt.Errorf("bad style suffix")
+		}
+		if err != nil {
+			return nil, err
+		}
 	}
 	for i, ch := range f[0] {
 		p.Style[i] = int(ch - '0')
@@ -407,13 +662,84 @@ func tryGenProg(r *proto.Rand, stopFatal bool) *prog {
 	return p
 }
 
+// nativeCall is one call of a native function of package h in the generated source.
+type nativeCall struct {
+	name string // Panic, PanicS, PanicE, PanicC, Print, Nop, Stop, Fatal, Call, CallN
+	typ  string // the Go type of the function: "func(int)"
+	args string
+	env  bool   // the Scriggo version takes a native.Env (no call through an interface declared in the source)
+	ret  string // the result type, if the call is used as a value
+}
+
+// write renders the call reached the given way: the statements that prepare it and the call expression.
+func (nc nativeCall) write(reach int, fresh func(string) string) (pre []string, call string) {
+	fn := "h." + nc.name
+	recvArgs := func(t string) string {
+		if nc.args == "" {
+			return t
+		}
+		return t + ", " + nc.args
+	}
+	if nc.env { // (Scriggo has no calls of methods that take a native.Env through an interface)
+		switch reach {
+		case reachIface:
+			reach = reachMethod
+		case reachIfaceValue:
+			reach = reachMethodValue
+		case reachIfaceExpr:
+			reach = reachMethodExpr
+		}
+	}
+	switch reach {
+	case reachVar:
+		g := fresh("g")
+		return []string{g + " := " + fn}, g + "(" + nc.args + ")"
+	case reachArg:
+		if nc.ret != "" {
+			return nil, "func(g " + nc.typ + ") " + nc.ret + " { return g(" + nc.args + ") }(" + fn + ")"
+		}
+		return nil, "func(g " + nc.typ + ") { g(" + nc.args + ") }(" + fn + ")"
+	case reachRet:
+		return nil, "func() " + nc.typ + " { return " + fn + " }()(" + nc.args + ")"
+	case reachMethod:
+		t := fresh("t")
+		return []string{"var " + t + " h.T"}, t + "." + nc.name + "(" + nc.args + ")"
+	case reachMethodValue:
+		t, g := fresh("t"), fresh("g")
+		return []string{"var " + t + " h.T", g + " := " + t + "." + nc.name}, g + "(" + nc.args + ")"
+	case reachMethodExpr:
+		t := fresh("t")
+		return []string{"var " + t + " h.T"}, "h.T." + nc.name + "(" + recvArgs(t) + ")"
+	case reachIface:
+		t, i := fresh("t"), fresh("i")
+		return []string{"var " + t + " h.T", "var " + i + " h.I = " + t}, i + "." + nc.name + "(" + nc.args + ")"
+	case reachIfaceValue:
+		t, i, g := fresh("t"), fresh("i"), fresh("g")
+		return []string{"var " + t + " h.T", "var " + i + " h.I = " + t, g + " := " + i + "." + nc.name}, g + "(" + nc.args + ")"
+	case reachIfaceExpr:
+		t, i := fresh("t"), fresh("i")
+		return []string{"var " + t + " h.T", "var " + i + " h.I = " + t}, "h.I." + nc.name + "(" + recvArgs(i) + ")"
+	case reachField:
+		x := fresh("s")
+		return []string{x + " := struct{ f " + nc.typ + " }{" + fn + "}"}, x + ".f(" + nc.args + ")"
+	case reachSlice:
+		x := fresh("fs")
+		return []string{x + " := []" + nc.typ + "{" + fn + "}"}, x + "[0](" + nc.args + ")"
+	}
+	return nil, fn + "(" + nc.args + ")"
+}
+
 // render writes the program as Go source. With prefix "" it is a Scriggo/Go program
 // (package main, func main); with a prefix every top-level name is prefixed so that many
 // programs fit into one package of the gc batch. hpkg is the import path of the natives.
 func (p *prog) render(prefix, hpkg string) string {
 	var b strings.Builder
 	pr := prefix + "pr"
-	fmt.Fprintf(&b, "func %s(v interface{}) {\n\tif v == nil {\n\t\tprintln(\"R nil\")\n\t\treturn\n\t}\n\tif e, ok := v.(error); ok {\n\t\tprintln(\"R\", e.Error())\n\t\treturn\n\t}\n\tprintln(\"R\", v.(int))\n}\n\n", pr)
+	cus := ""
+	if p.usesCustom() {
+		cus = "\tcase h.Cus:\n\t\tprintln(\"R c\", x.Error())\n"
+	}
+	fmt.Fprintf(&b, "func %s(v interface{}) {\n\tswitch x := v.(type) {\n\tcase nil:\n\t\tprintln(\"R nil\")\n%s\tcase error:\n\t\tprintln(\"R e\", x.Error())\n\tcase string:\n\t\tprintln(\"R s\", x)\n\tcase int:\n\t\tprintln(\"R i\", x)\n\t}\n}\n\n", pr, cus)
 	name := func(i int) string {
 		if i == 0 {
 			if prefix == "" {
@@ -422,6 +748,11 @@ func (p *prog) render(prefix, hpkg string) string {
 			return prefix + "main"
 		}
 		return fmt.Sprintf("%sf%d", prefix, i)
+	}
+	nvar := 0
+	fresh := func(base string) string {
+		nvar++
+		return fmt.Sprintf("%s%d", base, nvar)
 	}
 	var body func(i int, ind string) string
 	lit := func(i int, ind string) string {
@@ -445,42 +776,62 @@ func (p *prog) render(prefix, hpkg string) string {
 			}
 			return name(j)
 		}
-		// call: the call expression for function j
-		call := func(j int) string {
+		// call: the call expression for function j and the statements that prepare it
+		call := func(j int, deferred bool) ([]string, string) {
 			if p.Style[j] != styleNative {
-				return value(j) + "()"
+				return nil, value(j) + "()"
 			}
-			if len(p.Funcs[j]) == 0 {
-				return "h.Nop()"
-			}
-			in := p.Funcs[j][0]
-			switch in.Op {
-			case opPanic:
-				return fmt.Sprintf("h.Panic(%d)", in.Arg)
-			case opPrint:
-				return fmt.Sprintf("h.Print(%d)", in.Arg)
-			case opStop:
-				return fmt.Sprintf("h.Stop(%d)", in.Arg)
-			case opFatal:
-				return fmt.Sprintf("h.Fatal(%d)", in.Arg)
-			case opCall:
-				if j%2 == 0 {
-					return "h.CallN(1, " + value(in.Arg) + ")"
+			nc := nativeCall{name: "Nop", typ: "func()"}
+			if len(p.Funcs[j]) > 0 {
+				in := p.Funcs[j][0]
+				switch in.Op {
+				case opPanic:
+					nc = nativeCall{name: p.panicNative(in.Arg), typ: "func(int)", args: strconv.Itoa(in.Arg)}
+				case opPrint:
+					nc = nativeCall{name: "Print", typ: "func(int)", args: strconv.Itoa(in.Arg), env: true}
+				case opStop:
+					nc = nativeCall{name: "Stop", typ: "func(int)", args: strconv.Itoa(in.Arg), env: true}
+				case opFatal:
+					nc = nativeCall{name: "Fatal", typ: "func(int)", args: strconv.Itoa(in.Arg), env: true}
+				case opCall:
+					if j%2 == 0 {
+						nc = nativeCall{name: "CallN", typ: "func(int, func())", args: "1, " + value(in.Arg)}
+					} else {
+						nc = nativeCall{name: "Call", typ: "func(func())", args: value(in.Arg)}
+					}
+				default:
+					return nil, value(j) + "()"
 				}
-				return "h.Call(" + value(in.Arg) + ")"
 			}
-			return value(j) + "()"
+			reach := p.reachOf(j)
+			if deferred && reach == reachIface {
+				// `defer i.F(x)` with i of an interface type is not implemented by the compiler
+				reach = reachIfaceValue
+			}
+			return nc.write(reach, fresh)
+		}
+		// stmt writes a call statement (kw "" or "defer ") with the statements that prepare it
+		stmt := func(kw string, pre []string, f string) {
+			if len(pre) == 0 {
+				fmt.Fprintf(&s, "%s%s%s\n", ind, kw, f)
+				return
+			}
+			fmt.Fprintf(&s, "%s{\n", ind)
+			for _, l := range pre {
+				fmt.Fprintf(&s, "%s\t%s\n", ind, l)
+			}
+			fmt.Fprintf(&s, "%s\t%s%s\n%s}\n", ind, kw, f, ind)
 		}
 		for _, in := range p.Funcs[i] {
 			switch in.Op {
 			case opPrint:
 				fmt.Fprintf(&s, "%sprintln(\"O\", %d)\n", ind, in.Arg)
 			case opCall:
-				f := call(in.Arg)
-				fmt.Fprintf(&s, "%s%s\n", ind, f)
+				pre, f := call(in.Arg, false)
+				stmt("", pre, f)
 			case opDefer:
-				f := call(in.Arg)
-				fmt.Fprintf(&s, "%sdefer %s\n", ind, f)
+				pre, f := call(in.Arg, true)
+				stmt("defer ", pre, f)
 			case opDeferRec:
 				fmt.Fprintf(&s, "%sdefer recover()\n", ind)
 			case opRet:
@@ -494,13 +845,11 @@ func (p *prog) render(prefix, hpkg string) string {
 				case in.Arg == errBase+3:
 					fmt.Fprintf(&s, "%s{\n%s\tvar a []int\n%s\ta[3] = 1\n%s}\n", ind, ind, ind, ind)
 				case in.Arg < len(p.Native) && p.Native[in.Arg]:
-					if in.Arg%2 == 0 {
-						fmt.Fprintf(&s, "%sh.Panic(%d)\n", ind, in.Arg)
-					} else {
-						fmt.Fprintf(&s, "%s{\n%s\tvar t h.T\n%s\tt.Panic(%d)\n%s}\n", ind, ind, ind, in.Arg, ind)
-					}
+					nc := nativeCall{name: p.panicNative(in.Arg), typ: "func(int)", args: strconv.Itoa(in.Arg)}
+					pre, f := nc.write(p.reachOfVal(in.Arg), fresh)
+					stmt("", pre, f)
 				default:
-					fmt.Fprintf(&s, "%sif true {\n%s\tpanic(%d)\n%s}\n", ind, ind, in.Arg, ind)
+					fmt.Fprintf(&s, "%sif true {\n%s\tpanic(%s)\n%s}\n", ind, ind, p.valueExpr(in.Arg), ind)
 				}
 			case opRecover:
 				fmt.Fprintf(&s, "%s%s(recover())\n", ind, pr)
